@@ -105,6 +105,14 @@ def trace_run(ctx):
                 # a write_func operation (sets has_update): the amount recorded is the base amount offered
                 uni.add_liquidity_by_tick(lp_ticks[0], lp_ticks[1], D("0.01"), D("15"))  # concrete amounts: the liquidity math is not this property's subject
                 ops_log.append((i, ph, True, None))
+            elif p.get("deribit_ops") and ph == "on":
+                # the option account is funded / drained on ANY minute (deposit and withdraw are not gated by the hourly market being open)
+                dm = markets[1]
+                if i % 2 == 0 or dm.balance < amt[(i, ph)]:
+                    dm.deposit(amt[(i, ph)])
+                else:
+                    dm.withdraw(amt[(i, ph)])
+                ops_log.append((i, ph, True, amt[(i, ph)]))
             else:
                 uni.buy(amt[(i, ph)])
                 ops_log.append((i, ph, True, amt[(i, ph)]))
@@ -208,6 +216,7 @@ def scenarios(tier):
             if mix == "uni" or tier != "quick":
                 out.append(Scenario(f"trace/{mix}/n{n}/oversized_sell", trace_run, params=dict(bars=n, mix=mix, light=True, sell=True), entry=("Actuator.run", "UniLpMarket.sell"), **kw))
                 out.append(Scenario(f"trace/{mix}/n{n}/op_inside_notify", trace_run, params=dict(bars=n, mix=mix, light=True, notify_op=True), entry=("Actuator.run", "Actuator.notify"), **kw))
+    out.append(Scenario("trace/uni+deribit/n3/option_account_funded_on_closed_and_open_minutes", trace_run, params=dict(bars=3, mix="uni+deribit", light=True, deribit_ops=True), entry=("Actuator.run", "DeribitOptionMarket.deposit", "DeribitOptionMarket.withdraw", "Market._record_action"), **kw))
     out.append(Scenario("trace/uni/price_table_denser_than_bars/n3", trace_run, params=dict(bars=3, mix="uni", light=True, gap=True), entry=("Actuator.run", "Actuator._generate_account_status_df"), **kw))
     out.append(Scenario("trace/uni/resampled_5min/n2", trace_run, params=dict(bars=2, mix="uni", resample_factor=5, light=True), entry=("Actuator.run", "Actuator.switch_interval"), canary="CANARY no action is ever recorded", **kw))
     if tier != "quick":
